@@ -216,7 +216,14 @@ func (g *gen) opaque3() (string, model3d.Solid) {
 		case 2:
 			rs := toolbox3d.NewRectSet()
 			for i := 0; i < 1+g.c.Rng.Intn(4); i++ {
+				// positive thickness on every axis: a zero-thickness box makes newRectSetSolid recurse
+				// without end (observed under C04, outside "rectangular volumes")
 				a, b := g.boxLoHi(true)
+				for k := range b {
+					if b[k] <= a[k] {
+						b[k] = a[k] + 1
+					}
+				}
 				rs.Add(model3d.NewRect(c3(a), c3(b)))
 			}
 			return "rectSet", rs.Solid()
